@@ -71,6 +71,7 @@ func propC08(c *Ctx) propInfo {
 	c.floor("E1.P4-alloc", 9)
 	c.floor("E1.P5-recursion", 4)
 	c.floor("E1.P7-libpre", 15)
+	c.floor("E2.R-tolerated", 1)
 	return propInfo{
 		explanation: "Static structural clauses of C08 (DESIGN.md §4 C08): on every function of packages tlb, tl, liteclient, code reachable from the TL-B/TL decoding entry points (every UnmarshalTLB/UnmarshalTL method, tlb.Unmarshal, tl.Unmarshal, the request decoder, ADNL answer framing): no explicit panic, indices/slices proved in bounds or covered by a re-verified per-construct exception, no unchecked type assertion, data-sized allocations bounded, recursion bounded; error discipline of the decoders. Decides absence of these crash constructs, not time/memory proportionality of DAG unfolding nor nil dereference in general.",
 		assumptions: []string{"integer overflow of int/uint arithmetic on sizes is not modelled", "reflect misuse is not modelled", "nil dereference is not modelled"},
